@@ -90,6 +90,11 @@ def check(ctx):
         pc, _, _ = lib.event_counts(prep, pops)
         ctx.check(pc == {1}, "C11.prepared", "%s::prepare:appends-exactly-one-entry" % tname, "%s:%d" % (prep.file, prep.line),
                   "prepare() appends exactly one entry", "prepare() appends %s entries" % sorted(pc))
+    # ---- nothing detected is left waiting: the polled schedulers drain completely (shared with C01.b) ----
+    import c01
+    npol = core.adopt(ctx, c01, lambda o: o["rule"] == "C01.b" and ("schedule_removal_reactions" in o["key"] or "schedule_despawn_reactions" in o["key"]), "C11.polled")
+    ctx.floor("C11.polled", npol, 8, "shared polled-scheduler obligations (C01.b)")
+
     # ---- reacting flags ----
     n = core.adopt(ctx, c04, lambda o: o["rule"] in ("C04.a", "C04.b"), "C11.flags")
     n += core.adopt(ctx, c03, lambda o: o["rule"] == "C03.b" and "flag" in o["key"], "C11.flags")
